@@ -509,7 +509,7 @@ func main() {
 			"overlap:conforming-request-parked-while-a-must-refuse-one-was-answered:"+rn)
 	}
 	n := run.N(10*coreCells, 80*coreCells)
-	nOv := run.N(ovProduct, 10*ovProduct)
+	nOv := run.N(2*ovProduct, 16*ovProduct)
 	if rc := run.ReplayCase(); rc >= 0 {
 		// a replay runs one case (on both routers, in fresh worlds); the coverage obligations do not apply to it
 		if rc >= ovBase {
